@@ -120,6 +120,32 @@ func (x *bctx) buildV1(kind string) bool {
 	case "v1-proof":
 		return x.v1Proof(nil)
 
+	case "v1-form+revise":
+		// a contract formed and revised by two transactions of the same block
+		t := x.v1Form()
+		if t == nil {
+			return false
+		}
+		id := t.FileContractID(0)
+		return x.v1ReviseOf(&id, false)
+
+	case "v1-form+proof":
+		// a contract formed with its window opening in this very block and proven in the same block
+		if x.h < 1 {
+			return false
+		}
+		data := make([]byte, []int{0, 1, 64, 65, 200, 1000}[x.rng.IntN(6)])
+		for i := range data {
+			data[i] = byte(x.rng.IntN(256))
+		}
+		t := x.v1FormSpec(&V1ContractSpec{Data: data, WindowStart: x.h, WindowEnd: x.h + 1 + uint64(x.rng.IntN(4))})
+		if t == nil {
+			return false
+		}
+		id := t.FileContractID(0)
+		x.v1Proof(&id)
+		return true
+
 	case "v1-foundation":
 		if x.h < n.HardforkFoundation.Height {
 			return false
@@ -237,6 +263,10 @@ func (x *bctx) v1FormSpec(spec *V1ContractSpec) *types.Transaction {
 	}
 	c.SignV1(x.cs, &txn, func(types.Hash256) bool { return x.rng.IntN(4) == 0 })
 	x.addV1(txn)
+	if x.formedV1 == nil {
+		x.formedV1 = map[types.FileContractID]types.FileContract{}
+	}
+	x.formedV1[txn.FileContractID(0)] = fc
 	return &x.v1[len(x.v1)-1]
 }
 
@@ -247,8 +277,18 @@ func sumOutputs(os []types.SiacoinOutput) (s types.Currency) {
 	return
 }
 
-func (x *bctx) v1Revise(thenProve bool) bool {
+func (x *bctx) v1Revise(thenProve bool) bool { return x.v1ReviseOf(nil, thenProve) }
+
+// v1ReviseOf revises a contract of the store, or (only != nil) the contract with that ID formed earlier in the block.
+func (x *bctx) v1ReviseOf(only *types.FileContractID, thenProve bool) bool {
 	c := x.c
+	if only != nil {
+		fc, ok := x.formedV1[*only]
+		if !ok {
+			return false
+		}
+		return x.v1ReviseElem(types.FileContractElement{ID: *only, FileContract: fc}, thenProve)
+	}
 	e, ok := c.S.PickFC(x.rng, func(id types.FileContractID, e types.FileContractElement) bool {
 		if x.fcTouched[id] == "resolved" {
 			return false
@@ -268,11 +308,19 @@ func (x *bctx) v1Revise(thenProve bool) bool {
 	if !ok {
 		return false
 	}
+	return x.v1ReviseElem(e, thenProve)
+}
+
+func (x *bctx) v1ReviseElem(e types.FileContractElement, thenProve bool) bool {
+	c := x.c
 	cur := e.FileContract
 	if cc, ok := x.curV1[e.ID]; ok {
 		cur = cc
 	}
 	info := c.V1Infos[cur.UnlockHash]
+	if info == nil || cur.WindowStart < x.h {
+		return false
+	}
 	rev := cur
 	rev.RevisionNumber = cur.RevisionNumber + 1 + x.rng.Uint64N(3)
 	if x.rng.IntN(2) == 0 {
@@ -333,9 +381,25 @@ func HonestV1ProofPossible(taxH, spH, h, filesize, idx uint64) bool {
 }
 
 func (x *bctx) v1Proof(only *types.FileContractID) bool {
+	var e types.FileContractElement
+	ok := false
+	if only != nil {
+		if fc, formed := x.formedV1[*only]; formed {
+			e, ok = types.FileContractElement{ID: *only, FileContract: fc}, true
+		}
+	}
+	if !ok {
+		e, ok = x.pickFCForProof(only)
+	}
+	if !ok {
+		return false
+	}
+	return x.v1ProofOf(e)
+}
+
+func (x *bctx) pickFCForProof(only *types.FileContractID) (types.FileContractElement, bool) {
 	c := x.c
-	n := c.Net.N
-	e, ok := c.S.PickFC(x.rng, func(id types.FileContractID, e types.FileContractElement) bool {
+	return c.S.PickFC(x.rng, func(id types.FileContractID, e types.FileContractElement) bool {
 		if only != nil {
 			return id == *only
 		}
@@ -346,9 +410,11 @@ func (x *bctx) v1Proof(only *types.FileContractID) bool {
 		_, have := c.Files[fc.FileMerkleRoot]
 		return have && fc.WindowStart >= 1 && fc.WindowStart <= x.h && x.h <= fc.WindowEnd
 	})
-	if !ok {
-		return false
-	}
+}
+
+func (x *bctx) v1ProofOf(e types.FileContractElement) bool {
+	c := x.c
+	n := c.Net.N
 	fc := e.FileContract
 	if cc, ok := x.curV1[e.ID]; ok {
 		fc = cc
